@@ -69,6 +69,8 @@ def gen_cases(tier, seed):
             cases.append({'adapter': 'create_task', 'depth': 1, 'order': [0], 'outcome': oc, 'thread': True, 'yields': yields})
     for thread in (False, True):
         cases.append({'adapter': 'create_task', 'depth': 1, 'order': [0], 'outcome': ['exc', 'creating-call-failed'], 'thread': thread, 'yields': 0, 'factory': 'raises'})
+    for oc in OUTCOMES:
+        cases.append({'adapter': 'create_task', 'depth': 1, 'order': [0], 'outcome': oc, 'thread': False, 'yields': 1, 'default_loop': True})
     # a plain (not async) subscriber converted by convert_to_comm() that hands back a loop future (possibly resolving to further
     # ones) for work it started; 'foreign': the innermost future belongs to another event loop than the one the subscriber is called on
     for depth in (1, 2, 3):
@@ -263,7 +265,8 @@ def run_case(case):
             holder = {}
 
             def start():
-                holder['out'] = futures.create_task(factory, loop)
+                # (the loop may be left out: the current one is meant)
+                holder['out'] = futures.create_task(factory) if case.get('default_loop') else futures.create_task(factory, loop)
                 holder['out'].add_done_callback(lambda f: calls.append(1))
 
             if thread:
